@@ -201,3 +201,19 @@ NOT_APPLICABLE = {
     "C14": "A bound on inter-node traffic followed by silence is a global ranking argument over the dispatcher and the replication loop on several nodes. Its per-call ingredients are proved elsewhere and listed there (unit outbox: a command puts at most one line on the replication channel and a refused one none; unit pending: the fan-out hands an operation to each other member once), but 'no self-sustaining exchange' relates the handlers of different nodes to each other and has no contract on one call.",
     "C18": "Both S3 strategies are async AWS-SDK network code inside a tokio runtime.",
 }
+
+# what later sessions put under contract, appended to the level texts above
+TEXT_ADDENDA = {
+    "C03": " Delivery: the real try_send loops (notify_watchers, the removed-notification of remove_value) are verified over a per-channel model - every registration of the key is handed the changed / changed-version (resp. removed) line exactly once, a channel without a registration for the key nothing (unit delivery); selecting a database again ends no subscription (unit sessions); a write that wins a newer resolution is notified (unit consensus).",
+    "C12": " Oplog::try_write_op_log: an accepted record is the last record of the live stream also when the write rolled the file over.",
+    "C15": " The two fan-out functions register an operation for exactly the members they hand it to (never this node itself), and the ack handler's closure is the accounting step whatever the node's role.",
+    "C13": " Every registered arbiter is handed a notice once (real loop, unit delivery); a key in conflict survives a restart (loader, unit snapshot); the resolved value leaves the node as an ordinary write line (unit outbox).",
+    "C07": " Also: on every path of start_election some time is spent asleep between announcing the candidacy and claiming (explicit clock token), and the closures of set-primary / set-secoundary tag the link with the last announced member and role.",
+    "C02": " A refused set-safe leaves nothing on the replication channel (unit outbox); get-safe reports the stored version also for a tombstone.",
+    "C08": " A refused login leaves the whole selection - database and user - unchanged (unit sessions); a refused command leaves nothing on the replication channel (unit outbox).",
+    "C09": " The credentials checked are the tokens sent (parsers of auth / use-db, unit parser); a refused login leaves the session bound as before, an accepted user login binds exactly that user (unit sessions).",
+    "C19": " A write received from a peer goes through the same resolving operation on every node role (op_replicate_set); a database restored without a metadata file gets the newer strategy (unit snapshot).",
+    "C05": " The live emitter (replicate_request, get_replicate_message) and the receiving parser of `replicate` are under contract too: the layout `db key VERSION value` is what one writes and the other reads.",
+    "C01": " process_request hands the parser the received line minus only its line feeds (unit outbox).",
+    "C17": " An HTTP request's session is released when the request ends, whatever its commands answered (process_commands, unit http).",
+}
